@@ -188,6 +188,17 @@ def F17():
     return _say('F17', name == 'TypeError', f"die_if_unbearable((generator, 'x'), tuple[Iterable[int], int]) raised {name}")
 
 
+def F19():
+    from typing import Annotated
+    from beartype.door import is_bearable
+    try:
+        is_bearable([1], list[Annotated[int, []]])
+        name = 'no exception'
+    except Exception as e:
+        name = type(e).__name__
+    return _say('F19', name == 'TypeError', f'is_bearable([1], list[Annotated[int, []]]) raised {name}')
+
+
 def F9_F12():
     from beartype import BeartypeConf
     from beartype.roar import BeartypeConfParamException
@@ -398,7 +409,7 @@ def F10():
 
 ALL = {
     'F1': F1, 'F2': F2, 'F3': F3, 'F4': F4, 'F5': F5_F6, 'F6': F5_F6, 'F7': F7,
-    'F7b': F7b, 'F8': F8, 'F17': F17,
+    'F7b': F7b, 'F8': F8, 'F17': F17, 'F19': F19,
     'F9': F9_F12, 'F10': F10, 'F11': F11, 'F12a': F9_F12, 'F12b': F9_F12,
     'F13': F13, 'F16': F16, 'F14a': F14, 'F14b': F14, 'F14c': F14, 'F15a': F15, 'F15b': F15,
 }
